@@ -1207,4 +1207,13 @@ def annotate_constructor_calls(trees: dict[str, ast.Module]) -> int:
                 call._by_field = by  # type: ignore[attr-defined]
                 call._field_order = [nm for nm, _ in fields]  # type: ignore[attr-defined]
                 n += 1
+                # canonical spelling: the leading run of positional fields positionally, the rest by keyword
+                lead = []
+                for nm in positional:
+                    if nm in by:
+                        lead.append(nm)
+                    else:
+                        break
+                call.args = [by[nm] for nm in lead]
+                call.keywords = [ast.keyword(arg=nm, value=by[nm]) for nm, _ in fields if nm in by and nm not in lead]
     return n
